@@ -352,6 +352,11 @@ def handleTyped (st : DState) (op : String) (args impl : List String) : Option (
           else (handle st (raw "rd") [dt, fmtIdx c, offT, "1"] impl).map fun r => (r.1, retag tag r.2)
     | none, _ => some (st, .malformed (op ++ " without array"))
     | _, none => some (st, .malformed (op ++ " offset"))
+  -- getDataDirect / setDataDirect: the transfer without the calibration (polynomial, expansion origin) of the array
+  | "da_rdd", _ =>
+    let st' := { st with arr := st.arr.map fun s => { s with poly := [], origin := none } }
+    (handle st' "da_rd" args impl).map fun r => (st, retag "direct." r.2)
+  | "da_wrd", _ => (handle st "da_wr" args impl).map fun r => (r.1, retag "direct." r.2)
   | _, _ => none
 
 end Nix.Drive.Array
